@@ -474,6 +474,18 @@ IMPL = {'og.from_opchains': impl_from_opchains, 'og.from_optrees': impl_from_opt
         'og.den': impl_den, 'og.dense': impl_dense, 'og.chain': impl_chain, 'og.tree': impl_tree}
 
 
+def drive_retry(ops, tries=6):
+    """common.drive, retried when the driver binary is momentarily missing (another lake build relinking it)"""
+    import time
+    for k in range(tries):
+        try:
+            return common.drive(ops)
+        except (FileNotFoundError, PermissionError, OSError, common.ToolError):
+            if k == tries - 1:
+                raise
+            time.sleep(3.0 + 2.0 * k)
+
+
 def run_ops(corr, ops, metas):
     """run every op on the real code (first: `add` steps get their set orders filled in), then on the model; record.
     meta: 'cls' (value or callable(op, impl, branches)), 'branches', 'cmp_keys' (value or callable(op))"""
@@ -483,7 +495,7 @@ def run_ops(corr, ops, metas):
             impls.append(IMPL[op['op']](op))
         except CaseTimeout:
             impls.append({'ok': False, 'err': 'fuel'})
-    replies = common.drive(ops)
+    replies = drive_retry(ops)
     for op, im, mo, meta in zip(ops, impls, replies, metas):
         br = list(meta.get('branches', []))
         if isinstance(mo, dict) and 'branches' in mo:
@@ -863,8 +875,9 @@ def gen_bad_step(rng, g):
 
 def gen_tree(rng, remaining, nids=4, qmode=0, depth=0, pleaf=0.3):
     """[qnum, children]; nodes at depth == remaining carry charge 0 (they are identified with the end node)"""
-    if remaining == 0 or (depth > 0 and rng.random() < pleaf):
-        q = 0 if (qmode == 0 or remaining == 0) else int(rng.integers(-1, 2))
+    if remaining == 0 or (depth > 0 and rng.random() < pleaf) or (depth == 0 and rng.random() < 0.07):
+        # (also at depth 0: a tree consisting of a single leaf, the empty product)
+        q = 0 if (qmode == 0 or remaining == 0 or depth == 0) else int(rng.integers(-1, 2))
         return [q, []]
     nb = int(rng.integers(1, 4))
     ch = []
